@@ -201,6 +201,8 @@ class CDF(keras.layers.Layer):
       raise ValueError("Invalid input_scaling_type: {}".format(
           self.input_scaling_type))
 
+    super(CDF, self).build(input_shape)
+
   def call(self, inputs):
     """Standard Keras call() method."""
     input_dim = int(inputs.shape[-1])
